@@ -69,8 +69,10 @@ pub fn run_case(ctx: &Ctx, case: u64) {
     let rep = &ctx.rep;
     let mut r = Rng::derive(ctx.seed, 0xc03, case);
     let bias = Bias { sets: r.chance(300), servers: false, regions: false, failing_ops: false, failing_serialize: true, max_chans: 6, ops: r.range(10, 80) as usize };
+    let guard = op_begin("model-generated-history", case);
     let it = Interp::new(ctx.seed, case, bias);
     let (out, mut world, mut model) = it.run();
+    drop(guard); // the finale has its own watcher
     rep.stat("program_ops", out.trace.len() as i64);
     if let Some(m) = out.mismatch {
         let kind = m.op.split(' ').next().unwrap_or("?").to_string();
@@ -381,5 +383,8 @@ pub fn run(ctx: &Ctx) {
             continue;
         }
         run_case(ctx, case);
+        if ctx.rep.nviol.load(Ordering::Relaxed) >= 3 {
+            break; // on a broken tree every further finale may cost a full grace period
+        }
     }
 }
